@@ -5,7 +5,27 @@ impl Config {
     pub uninterp spec fn dirty_limit(&self) -> u64;
     #[verifier::external_body]
     pub fn max_dirty_bytes_before_sync(&self) -> (r: u64) ensures r == self.dirty_limit() { unimplemented!() }
+    // configuration accessors (values irrelevant to the contracts: only presence matters)
+    #[verifier::external_body]
+    pub fn blob_file_name_prefix(&self) -> (r: Option<&str>) { unimplemented!() }
+    #[verifier::external_body]
+    pub fn work_dir(&self) -> (r: Option<PathRef>) { unimplemented!() }
+    #[verifier::external_body]
+    pub fn blob(&self) -> (r: BlobConfig) { unimplemented!() }
 }
+// &Path
+#[verifier::external_body]
+pub struct PathRef { _p: u8 }
+// blob::FileName::new(prefix, id, extension, dir): the id is stored as given (src/blob/file_name.rs)
+#[verifier::external_body]
+pub fn blob_file_name_new(name_prefix: &str, id: usize, extension: &str, dir: PathRef) -> (r: BlobFileName) ensures r.id == id { unimplemented!() }
+pub const BLOB_FILE_EXTENSION: &'static str = "blob";
+// R8: AtomicUsize::fetch_add(1), sequentially. Machine arithmetic treated as mathematical: the
+// blob id counter never reaches usize::MAX (one id per blob file ever created)
+pub fn fetch_add_usize(a: &mut usize, n: usize) -> (r: usize)
+    requires *old(a) + n <= usize::MAX
+    ensures r == *old(a), *final(a) == *old(a) + n
+{ let r = *a; *a = *a + n; r }
 // storage::observer::Observer: requests sent to the background worker, as a ghost sequence
 pub enum Request { TryFsyncData, TryUpdateActiveBlob, DeferredDump, TryDump, Create, Close, Restore, ForceUpdate }
 #[verifier::external_body]
